@@ -204,12 +204,59 @@ def canon(o, depth=0, seen=None):
     return '<%s>' % t
 
 
+_PRIM = (int, str, bytes, float, bool, type(None))
+_INTS = ('uint1', 'uint8', 'uint16', 'uint32', 'uint64', 'int8', 'int16', 'int32', 'int64')
+
+
+def digest(o, memo, stack):
+    """content digest of an object graph: every distinct object is walked once (memo by identity, valid for the duration
+    of one fingerprint), cycles are cut on the current path; dict/set order does not matter"""
+    if isinstance(o, _PRIM):
+        return hashlib.blake2b(repr(o).encode('utf8', 'replace'), digest_size=8, person=b'p').digest()
+    i = id(o)
+    if i in memo:
+        return memo[i]
+    if i in stack or len(stack) > 24:
+        return b'<cycle>!'
+    t = type(o).__name__
+    h = hashlib.blake2b(digest_size=8)
+    h.update(t.encode())
+    if t in _INTS:
+        h.update(repr(int(o)).encode())
+    elif callable(o) or t in ('module', 'type', 'function', 'builtin_function_or_method', 'method'):
+        pass
+    else:
+        stack.add(i)
+        if isinstance(o, dict):
+            for kv in sorted(digest(k, memo, stack) + digest(v, memo, stack) for k, v in o.items()):
+                h.update(kv)
+        elif isinstance(o, (list, tuple)):
+            for x in o:
+                h.update(digest(x, memo, stack))
+        elif isinstance(o, (set, frozenset)):
+            for d in sorted(digest(x, memo, stack) for x in o):
+                h.update(d)
+        else:
+            d = getattr(o, '__dict__', None)
+            if d is not None:
+                h.update(digest(d, memo, stack))
+            else:
+                for sl in getattr(type(o), '__slots__', None) or ():
+                    h.update(sl.encode())
+                    h.update(digest(getattr(o, sl, None), memo, stack))
+        stack.discard(i)
+    r = h.digest()
+    memo[i] = r
+    return r
+
+
 def fingerprint(c):
     h = hashlib.blake2b(digest_size=12)
     # shared instruction / register tables
-    h.update(repr(canon(c.ia32.x86mndb.__dict__)).encode('utf8', 'replace'))
+    memo = {}
+    h.update(digest(c.ia32.x86mndb.__dict__, memo, set()))
     afs = c.ia32.x86_afs
-    h.update(repr(canon({k: v for k, v in vars(afs).items() if not k.startswith('__')})).encode('utf8', 'replace'))
+    h.update(digest({k: v for k, v in vars(afs).items() if not k.startswith('__')}, memo, set()))
     # memo flags on module-level expression singletons
     flags = []
     for n, v in sorted(vars(c.sem).items()):
